@@ -6,7 +6,7 @@
    shown below to be RFC 6811's three sentences.  Quantified over every history [ops] of
    add / remove / remove-by-source on records with zero host bits ([op_ok]), both families,
    any AS (0 included), any max-length, any number of sources, and every query.            *)
-From RtrV Require Import Base.CSem Base.Bits Gen.Generated.
+From RtrV Require Import Base.CSem Base.Bits Base.Bits6 Gen.Generated.
 From RtrV Require Import Pfx.TrieModel Pfx.PfxTable Pfx.PfxProofs Pfx.PfxValidate Pfx.PfxHistory Pfx.Hazards.
 From Coq Require Import Permutation.
 
@@ -47,8 +47,8 @@ Proof. exact c01_no_ub. Qed.
 (* the model's list-of-bits view is what the C's uint32_t arithmetic computes (IPv4 word; the translated
    lrtr_get_bits): comparing the first n bits through lrtr_get_bits = equality of [firstn n] of the bit
    lists, and extracting bit lvl = reading position lvl; inside that domain the function never hits UB.
-   (For IPv6 the four-word composition lrtr_ipv6_get_bits is translated too but related to the model by
-   the correspondence run only.) *)
+   C01_bits_compare6 / C01_bit_select6 are the same two facts for the four-word IPv6 composition
+   lrtr_ipv6_get_bits (also translated from /repo). *)
 Theorem C01_bits_compare : forall a b n, (0 <= a < 2 ^ 32)%Z -> (0 <= b < 2 ^ 32)%Z -> (0 <= n <= 32)%Z ->
   exists x y, lrtr_get_bits_gen a 0 n = Some x /\ lrtr_get_bits_gen b 0 n = Some y /\
               (x = y <-> firstn (Z.to_nat n) (bits32 a) = firstn (Z.to_nat n) (bits32 b)).
@@ -58,7 +58,20 @@ Theorem C01_bit_select : forall a lvl, (0 <= a < 2 ^ 32)%Z -> (0 <= lvl < 32)%Z 
   exists x, lrtr_get_bits_gen a lvl 1 = Some x /\ (x =? 0)%Z = negb (nth (Z.to_nat lvl) (bits32 a) false).
 Proof. exact bit_select. Qed.
 
+Theorem C01_bits_compare6 : forall s1 s2 n, words_ok s1 -> words_ok s2 -> (0 <= n <= 128)%Z ->
+  exists r1 r2, lrtr_ipv6_get_bits_gen s1 0 n = Some r1 /\ lrtr_ipv6_get_bits_gen s2 0 n = Some r2 /\
+    ((w0 r1 = w0 r2 /\ w1 r1 = w1 r2 /\ w2 r1 = w2 r2 /\ w3 r1 = w3 r2) <->
+     firstn (Z.to_nat n) (bits128 s1) = firstn (Z.to_nat n) (bits128 s2)).
+Proof. exact prefix_compare6. Qed.
+
+Theorem C01_bit_select6 : forall s lvl, words_ok s -> (0 <= lvl < 128)%Z ->
+  exists r, lrtr_ipv6_get_bits_gen s lvl 1 = Some r /\
+    ((w0 r =? 0) && (w1 r =? 0) && (w2 r =? 0) && (w3 r =? 0))%Z = negb (nth (Z.to_nat lvl) (bits128 s) false).
+Proof. exact bit_select6. Qed.
+
 Print Assumptions C01_state.
+Print Assumptions C01_bits_compare6.
+Print Assumptions C01_bit_select6.
 Print Assumptions C01_bits_compare.
 Print Assumptions C01_bit_select.
 Print Assumptions C01_reasons.
